@@ -253,6 +253,10 @@ class Builder:
                 text = "%d Entering Extended Passive Mode (|||{P}|) [m%d]" % (code, self.mark)
             else:
                 text = "%d Entering Passive Mode ({h},{p1},{p2}). [m%d]" % (code, self.mark)
+                # PASV names an address of its own: a data listener at another address than the control connection's
+                # (multi-homed server, separate data node) - the client goes where the reply says
+                off = (self.mark % 4) if (self.mark % 3 == 0 and not self.ip6) else 0
+                return reaction([R(code, text)], listen=listen, listen_addr_off=off)
             return reaction([R(code, text)], listen=listen)
         return reaction([self.m(code, "port")], parse_active=True)
 
